@@ -1,6 +1,7 @@
 //! Correspondence / search harness: runs the REAL implementation on generated cases and writes
 //! the op lines (replayed by the Lean driver) together with the implementation's answers.
 mod c_alu;
+mod c_board;
 mod c_bus;
 mod c_flow;
 mod c_isa;
@@ -28,6 +29,7 @@ fn main() {
         "c08" => c_alu::run(&mut out, seed, thorough),
         "c09" => c_flow::run(&mut out, seed, thorough),
         "c09drill" => c_flow::drill(&mut out, &extra),
+        "c14" => c_board::run(&mut out, seed, thorough),
         "c15" => c_flow::run_c15(&mut out, seed, thorough),
         "c10" => c_bus::run(&mut out, seed, thorough),
         "c01" => c_isa::run_c01(&mut out, seed, thorough),
